@@ -3,6 +3,7 @@ package main
 // IX — constant-position indexing needs a dominating length guard.
 
 import (
+	"os"
 	"fmt"
 	"regexp"
 	"go/token"
@@ -337,13 +338,102 @@ func (c *ixCtx) factsAt(b *ssa.BasicBlock, params map[ssa.Value]string) map[stri
 			// a join block: facts of the idom's own dominators still hold; skip this edge
 			continue
 		}
+		before := map[string]int{}
+		if ixAudit {
+			for k, v := range out {
+				before[k] = v
+			}
+		}
 		if d.Succs[0] == cur && d.Succs[1] != cur {
 			c.lenFacts(iff.Cond, true, params, out, 0)
 		} else if d.Succs[1] == cur && d.Succs[0] != cur {
 			c.lenFacts(iff.Cond, false, params, out, 0)
 		}
+		if ixAudit && params == nil {
+			for k, v := range out {
+				if before[k] >= v || !mutableKey(k) {
+					continue
+				}
+				if why := impureBetween(c, cur, b); why != "" {
+					ixAuditLog[fmt.Sprintf("%s: fact len(%s) ≥ %d from the test at %s used in block %d after %s", fnKey(b.Parent()), k, v, c.w.pos(instrPos(iff)), b.Index, why)] = true
+				}
+			}
+		}
 	}
 	return out
+}
+
+var ixAudit = os.Getenv("VERIF_DEBUG") == "ixaudit"
+var ixAuditLog = map[string]bool{}
+
+// mutableKey: the storage is reached through memory or an accessor (not an SSA value).
+func mutableKey(k string) bool {
+	return strings.Contains(k, "*") || strings.Contains(k, "g:") || strings.Contains(k, ").") || (strings.Contains(k, "(") && !strings.HasPrefix(k, "len(p:") && !strings.HasPrefix(k, "len(v:"))
+}
+
+// impureBetween: an impure call or a store on some path from the start of block from to the
+// start of block to (exclusive of to's own instructions).
+func impureBetween(c *ixCtx, from, to *ssa.BasicBlock) string {
+	fwd := map[*ssa.BasicBlock]bool{}
+	var f func(b *ssa.BasicBlock)
+	f = func(b *ssa.BasicBlock) {
+		if fwd[b] {
+			return
+		}
+		fwd[b] = true
+		if b == to {
+			return
+		}
+		for _, s := range b.Succs {
+			f(s)
+		}
+	}
+	f(from)
+	bwd := map[*ssa.BasicBlock]bool{}
+	var g func(b *ssa.BasicBlock)
+	g = func(b *ssa.BasicBlock) {
+		if bwd[b] {
+			return
+		}
+		bwd[b] = true
+		if b == from {
+			return
+		}
+		for _, p := range b.Preds {
+			g(p)
+		}
+	}
+	g(to)
+	for b := range fwd {
+		if !bwd[b] {
+			continue
+		}
+		for _, ins := range b.Instrs {
+			switch x := ins.(type) {
+			case *ssa.Store:
+				if _, local := x.Addr.(*ssa.Alloc); !local {
+					return "a store at " + c.w.pos(instrPos(x))
+				}
+			case *ssa.MapUpdate:
+				return "a map update at " + c.w.pos(instrPos(x))
+			case *ssa.Call:
+				cal := x.Call.StaticCallee()
+				if cal == nil {
+					if _, bi := x.Call.Value.(*ssa.Builtin); bi {
+						continue
+					}
+					return "a dynamic call at " + c.w.pos(instrPos(x))
+				}
+				if cal.Pkg != nil && !inModule(cal.Pkg.Pkg.Path()) {
+					continue
+				}
+				if !c.isPure(cal, 0) {
+					return "the call of " + fnKey(cal) + " at " + c.w.pos(instrPos(x))
+				}
+			}
+		}
+	}
+	return ""
 }
 
 // edgeFacts: facts at the end of block p, plus the branch fact of the edge p → to.
@@ -1067,6 +1157,16 @@ func engineIX(w *World, tier string) *EngineResult {
 	}
 	for k, why := range ixAssumedUsed {
 		r.Reviewed[k] = why
+	}
+	if ixAudit {
+		var ls []string
+		for k := range ixAuditLog {
+			ls = append(ls, k)
+		}
+		sort.Strings(ls)
+		for _, l := range ls {
+			fmt.Fprintln(os.Stderr, "AUDIT", l)
+		}
 	}
 	r.finish()
 	return r
